@@ -11,6 +11,7 @@ for p in selftest/*.patch seeded/*/patch.diff; do
   [ -f "seeded/$n/also_check" ] && extra="$(cat "seeded/$n/also_check")"
   out="$(./tools/try_patch.sh "$p" $c $extra 2>&1)"
   if echo "$out" | grep -q "^VIOLATION"; then v="DETECTED ($(echo "$out" | grep -c '^VIOLATION') violation lines; $(echo "$out" | grep '^VIOLATION' | head -1 | sed 's/.*property=\([A-Z0-9]*\).*-\(R[0-9.a-z]*\)-.*/\1 \2/'))";
+  elif echo "$out" | grep -q "patch failed"; then v="STALE (patch does not apply to the current tree)";
   elif echo "$out" | grep -q "CHECKER-ERROR"; then v="CHECKER-ERROR"; else v="missed"; fi
   printf "%-44s %-6s %s\n" "$n" "$c$([ -n "$extra" ] && echo "+$extra")" "$v"
 done
